@@ -109,6 +109,11 @@ namespace sim
          return c == RC::TC_RN_PE || c == RC::TC_RN_ANY || c == RC::TC_RN_STD || c == RC::TC_RN_TYPE;
       }
 
+      bool carries_switch( RC c )
+      {
+         return c == RC::W_CHANGE_STATE || c == RC::W_CHANGE_STATES || c == RC::W_CHANGE_ACTION_STATE || c == RC::W_CHANGE_ACTION_STATES || c == RC::W_CHANGE_ACTION || c == RC::W_CHANGE_CONTROL || c == RC::W_ENABLE_ACTION || c == RC::W_DISABLE_ACTION;
+      }
+
       bool opens_state( RC c )
       {
          return c == RC::STATE || c == RC::W_CHANGE_STATE || c == RC::W_CHANGE_STATES || c == RC::W_CHANGE_ACTION_STATE || c == RC::W_CHANGE_ACTION_STATES;
@@ -341,6 +346,9 @@ namespace sim
                   }
                   if( e.afam != top->afam || e.cfam != top->cfam ) {
                      ++f.switches;
+                  }
+                  if( ( top->cls == RC::STATE || ( opens_state( top->cls ) && top->afam == 1 ) ) && top->scopes.empty() ) {
+                     cx.viol( "C13.life", "no-state:" + head_name( top->rule ), i, short_name( e.rule ) + " runs under " + short_name( top->rule ) + ", which has not constructed its state" );
                   }
                   if( e.sid != 0 && top->cur_sid != 0 && e.sid != top->cur_sid ) {
                      cx.viol( "C13.seen", "state:" + head_name( top->rule ), i, "rule " + short_name( e.rule ) + " receives state #" + std::to_string( e.sid ) + ", innermost open state is #" + std::to_string( top->cur_sid ) );
@@ -620,6 +628,10 @@ namespace sim
             case Ev::UNWIND: {
                if( top == nullptr || top->rule != e.rule ) {
                   cx.viol( "C08.balance", head_name( e.rule ), i, std::string( ev_name( e.kind ) ) + " for " + short_name( e.rule ) + " while the innermost open rule is " + ( top ? short_name( top->rule ) : std::string( "none" ) ) );
+                  if( carries_switch( g_rules[ e.rule ].cls ) ) {
+                     // the rule runs although Control< Rule >::match was never entered: its match()-bearing action was bypassed
+                     cx.viol( "C13.seen", "bypass:" + head_name( e.rule ), i, short_name( e.rule ) + " runs (" + ev_name( e.kind ) + ") without its control's match() having been entered: the switch attached to it cannot have been applied" );
+                  }
                   break;
                }
                if( e.kind == Ev::START && top->cls == RC::W_LIMIT_DEPTH && !on_sub ) {
